@@ -20,7 +20,7 @@ RULE = ('marker statements: 1-3 tables over 3 integrations (+ default namespace)
         'tables or a model; distinct by (statement, catalog form)')
 ASSUMPTIONS = ['marker names are unique, so an identifier part tb_NN / mdl_N identifies its table / model wherever it appears',
                'first name part matched case-insensitively against integrations and projects, otherwise the default namespace']
-BUDGET = {'quick': (8, 80), 'thorough': (16, 500)}
+BUDGET = {'quick': (8, 240), 'thorough': (16, 1800)}
 INTS = ['int1', 'int2', 'int3']
 
 
